@@ -1,6 +1,7 @@
 """C03 -- lexing follows TeX's scanner; every token traces to its source position (TexLexer.tla)."""
 import json
 from vlib import *
+from texvm import texvm_source_part, texvm_source_selftest
 
 LEVEL = "model_checking"
 DEVS = {"caret-hex-form": "Trace_TexLexer_dev.cfg"}
@@ -31,6 +32,11 @@ def run(ctx):
     ctx.add_bound("TexLexer.events", n, n - 4)
     evs = read_ndjson(ev)
     ctx.sample({k: evs[len(evs) - 3][k] for k in ("text", "table", "elc", "toks")})
+    # the lexer inside the interpreter: category codes and the line end change while the file is being read
+    tlc_model(ctx, "TexVM.stepwise_lexer_is_TexLexer", "MC_TexVM_Lex", f"MC_TexVM_Lex{sfx}.cfg", workers=6 if q else 14,
+              coverage=False, timeout=3000)
+    tlc_expect_refuted("MC_TexVM_Lex", "NEG_TexVM_Lex_vacuity.cfg", "no text has three tokens", workers=3)
+    texvm_source_part(ctx, 2400 if q else 40000, 303)
     ctx.assumptions += [
         "position of a ^^-reduced character = the character that was rewritten (third character), as the repository's tests pin it",
         "position of the space/\\par made from the end-line character = the column just after the right-trimmed line",
@@ -50,6 +56,7 @@ def selftest(ctx):
     selftest_calls(ctx, "token-dropped", "Trace_TexLexer", "Trace_TexLexer_dev.cfg", ev,
                    lambda e: dict(e, toks=e["toks"][1:]) if e["toks"] and not e["panic"] else None)
     tlc_expect_refuted("MC_TexLexer", "NEG_TexLexer_NoSkipBlanks.cfg", "NoSkipBlanks", workers=3)
+    texvm_source_selftest(ctx)
     ctx.cov["rule"] = "selftest: corrupted recordings must be rejected, originals accepted, spec mutant refuted"
 
 
